@@ -1436,6 +1436,9 @@ SPECS = [
          calls={"type": ("type_of", ["V"], "T"), "VariableParent": ("tt", [], "unit"),
                 "find_children_for_parent": ("(fun (_ _ : unit) => find_children)", ["unit", "unit", "V", "T"], "list N")},
          local_classes={"VariableParent": "its add_child appends the child to the entry of variable_id (Collector.attach, tied by correspondence)"}),
+    # ---- the line a tracepoint reports on the wire (an unsigned field): a method tracepoint holds -1 (C08)
+    dict(group="Line", name="gen_line_no", path="api/tracepoint/tracepoint_config.py", cls="TracePointConfig", func="line_no",
+         params="(line_no : Z)", ret="Z", args=["self"], env={"self._line_no": ("line_no", "Z")}),
     # ---- Resource.merge: the other's attributes over a copy of one's own, and the schema rule (C18)
     dict(group="Merge", name="gen_resource_merge", path="api/resource/__init__.py", cls="Resource", func="merge",
          params="{A R : Type} (attrs_update : A -> A -> A) (mk : A -> str -> R) (self_attrs other_attrs : A) (self_schema other_schema : str) (self_ : R)",
@@ -1552,6 +1555,7 @@ GROUPS = {           # generated file -> (imports, which properties' theorems ar
     "Frames": ("From Deep Require Import Base PureSupport.", ["C19", "C02"]),
     "Store": ("From Deep Require Import Base Attrs PureSupport.", ["C18"]),
     "Merge": ("From Deep Require Import Base PureSupport.", ["C18"]),
+    "Line": ("From Deep Require Import Base PureSupport.", ["C08"]),
     "Service": ("From Deep Require Import Base ConfigSvc PureSupport.", ["C12", "C13"]),
     "Registry": ("From Deep Require Import Base ConfigSvc PureSupport.\nFrom DeepGen Require Import PService.", ["C13"]),
     "Callbacks": ("From Deep Require Import Base PureSupport.", ["C15"]),
